@@ -33,7 +33,8 @@ def obligations(tier):
                  ("value_dict", "dicts"), ("value_set", "sets incl. mixed element types"), ("value_nested", "nested lists")]:
         obs.append(Ob("C19." + f, F, f, 200, what="value typing (%s): a Type, subtype of itself twice in a row, conforms to the normalised Python type" % w))
     for k in (range(12) if tier == "thorough" else (0, 2, 4, 6)):
-        obs.append(Ob("C19.tifa_tree", F, "tifa_tree", 400, part=str(k), what="depth-2 trees z = (x op1 y) op2 w / x op2 (y op1 w) through tifa_analysis (op1 = partition): TypeError anywhere => incompatible_types; else type of z admits the value"))
+      for side in ("L", "R"):
+        obs.append(Ob("C19.tifa_tree", F, "tifa_tree", 400, part="%d,%s" % (k, side), what="depth-2 trees z = (x op1 y) op2 w / x op2 (y op1 w) through tifa_analysis (op1 = partition): TypeError anywhere => incompatible_types; else type of z admits the value"))
     obs.append(Ob("C19.numeric_twins", F, "numeric_twins", 120, what="an int and the float equal to it typed in the same process, both orders: each keeps the type of its own Python type; 1 << 1.0 and 'ab' * 1.0 still impossible"))
     obs.append(Ob("C19.binop_reach", F, "binop_reach", 60, expect="refute", what="twin: a TypeError cell is reached and reported"))
     return obs
